@@ -61,6 +61,8 @@ func main() {
 			fn(r)
 		}()
 		os.Exit(r.Finish())
+	case "debug-effects":
+		checks.DebugEffects(os.Args[2])
 	case "manifest":
 		// bmverif manifest <path> [fix commits...]
 		if len(os.Args) < 3 {
